@@ -12,6 +12,7 @@ import (
 	"time"
 
 	"github.com/theory/sqljson/path/exec"
+	"github.com/theory/sqljson/path/types"
 	"pgregory.net/rapid"
 )
 
@@ -162,6 +163,43 @@ var checkProcessZone = register("c17.processzone", func(c DTCase) *Violation {
 			first = r
 		} else if r != first {
 			return violf("Query(%q) with a=%q zone=%q returns %s when the zone of the process is UTC and %s when it is %s: the zone of the process is not an input of the query", c.Path, c.A, c.Zone, first, r, local)
+		}
+	}
+	return nil
+})
+
+// checkParseTimeCase: the exported types.ParseTime(ctx, s, precision) rounds as the path method of the value's own
+// type does (whose results the time-zone model decides): one rounding rule, wherever it is implemented.
+var checkParseTimeCase = register("c17.parsetime", func(c DTCase) *Violation {
+	for p := 0; p <= 7; p++ {
+		ctx := Opts{TZ: c.TZ, Zone: c.Zone}.Ctx()
+		var v types.DateTime
+		var ok bool
+		pan := ""
+		func() {
+			defer func() {
+				if r := recover(); r != nil {
+					pan = fmt.Sprint(r)
+				}
+			}()
+			v, ok = types.ParseTime(ctx, c.A, min(p, 6))
+		}()
+		if pan != "" {
+			return violf("types.ParseTime(%q, %d) panicked: %s", c.A, p, pan)
+		}
+		if !ok {
+			return nil
+		}
+		m := map[string]string{"*types.Time": "time", "*types.TimeTZ": "time_tz", "*types.Timestamp": "timestamp", "*types.TimestampTZ": "timestamp_tz"}[fmt.Sprintf("%T", v)]
+		if m == "" {
+			return nil // a date has no fractional seconds
+		}
+		got, _, rok := runDT(DTCase{Path: fmt.Sprintf("$a.%s(%d)", m, p), A: c.A, TZ: c.TZ, Zone: c.Zone})
+		if !rok || got.Class != EOK || len(got.Items) != 1 {
+			return violf("types.ParseTime(%q, %d) returns the %s %s, but Query($a.%s(%d)) returns %s", c.A, p, m, v, m, p, got)
+		}
+		if w, isDT := got.Items[0].(types.DateTime); !isDT || fmt.Sprint(w) != fmt.Sprint(v) {
+			return violf("types.ParseTime(%q, %d) returns %s, but the path method $a.%s(%d) returns %s: the two round differently", c.A, min(p, 6), v, m, p, Render(got.Items[0], false))
 		}
 	}
 	return nil
@@ -486,6 +524,14 @@ func TestC17(t *testing.T) {
 		}
 		ev.Exhaustive("process_zone_is_no_input", int64(len(cs)))
 	})
+	// the exported ParseTime rounds as the path methods do
+	var pt []DTCase
+	for _, a := range append(append([]string{"12:00:00.285", "10:20:30.565", "2015-08-01T10:20:30.575Z", "2015-08-01T10:20:30.285", "23:59:58.9999995+05:30", "12:00:00.0000005", "12:00:00.1234565", "2015-08-01 10:20:30.4999995-04:00"}, dtStrings[:45]...), dtEast...) {
+		for _, z := range []string{"", "America/New_York"} {
+			pt = append(pt, DTCase{A: a, TZ: true, Zone: z})
+		}
+	}
+	runTable("parsetime_rounds_as_the_methods_do", "c17.parsetime", pt, func(c DTCase) (*Violation, dtFacts) { return checkParseTimeCase(c), dtFacts{class: "relation"} })
 	// a datetime value converts to a string that converts back to an equal value
 	var back []DTCase
 	for _, a := range append(append([]string{}, dtStrings[:45]...), dtEast...) {
